@@ -154,9 +154,19 @@ Definition restr_met_w3c (cfg : vcfg) (c : pcase) (p : present) (subject : list 
   | _ => false
   end.
 
+(* every name a referent asks for - revealed or not - and every predicate's attribute is an attribute of the credential
+   selected for it (the prover does not look at the names of an unrevealed referent; the verifier does) *)
+Definition names_held (c : pcase) (p : present) : bool :=
+  let held := src_attrs (hc_src (pr_cred p)) in
+  forallb (fun '(r, _) => match assoc r (rq_attrs (pc_req c)) with
+                          | Some ai => forallb (fun n => mem (cv n) held) (names_of ai)
+                          | None => true end) (pr_attrs p)
+  && forallb (fun r => match assoc r (rq_preds (pc_req c)) with
+                       | Some pi => mem (cv (pi_name pi)) held
+                       | None => true end) (pr_preds p).
 Definition honest_common (c : pcase) : bool :=
   coverage c
-  && forallb (fun p => cred_honest (pc_cx c) (pc_link c) (pr_cred p)) (nonempty (pc_sel c)).
+  && forallb (fun p => cred_honest (pc_cx c) (pc_link c) (pr_cred p) && names_held c p) (nonempty (pc_sel c)).
 Definition honest_legacy (cfg : vcfg) (c : pcase) : bool :=
   honest_common c && forallb (fun p => rev_ok_legacy c p && restr_met_legacy cfg c p) (nonempty (pc_sel c)).
 Definition honest_w3c (cfg : vcfg) (pc : pcfg) (c : pcase) : bool :=
